@@ -9,10 +9,12 @@
 //   (secondary services are declared as service< is_secondary_service, ... >: bluetoe::secondary_service<> is a derived
 //    class that the server's handle mapping has no specialisation for, a server using it does not compile)
 //   cfg 3 (B4): primary + secondary services, include_service, no fixed handles (documentation example), default GAP service
+//   cfg 4..6 (B5..B7): reduced versions of B1..B3 with 9-10 attributes, for the requests whose cost grows with the square
+//               of the number of attributes (Find Information, Read By Type)
 // The unit is built once per configuration (-DVF_BCFG=n): CBMC resolves the indirect attribute access calls against every
 // access function in the unit, so a unit that holds all four servers is 4 x more expensive per call site.
 #ifndef VF_BCFG
-#error "define VF_BCFG = 0..3"
+#error "define VF_BCFG = 0..6"
 #endif
 #include <bluetoe/server.hpp>
 #include <bluetoe/service.hpp>
@@ -199,6 +201,108 @@ using b4_t = bluetoe::server<
 using srv_t = b4_t;
 #endif
 
+#if VF_BCFG == 4
+// ------------------------------------------------------------------------------------------------ B5 (small B1: 10 attributes)
+std::uint32_t b5_v1 = 0x12345678;
+std::uint8_t  b5_v2 = 7;
+static const std::uint8_t b5_desc[] = { 0x08, 0x15, 0x47 };
+
+using b5_t = bluetoe::server<
+    bluetoe::no_gap_service_for_gatt_servers,
+    bluetoe::max_mtu_size< 65 >,
+    bluetoe::service<
+        bluetoe::service_uuid< 0x8C8B4094, 0x0DE2, 0x499F, 0xA28A, 0x4EED5BC73CA9 >,
+        bluetoe::characteristic<
+            bluetoe::bind_characteristic_value< decltype( b5_v1 ), &b5_v1 >,
+            bluetoe::notify
+        >,
+        bluetoe::characteristic<
+            bluetoe::characteristic_uuid16< 0x2A19 >,
+            bluetoe::bind_characteristic_value< decltype( b5_v2 ), &b5_v2 >
+        >
+    >,
+    bluetoe::service<
+        bluetoe::service_uuid16< 0x1816 >,
+        bluetoe::characteristic<
+            bluetoe::characteristic_uuid< 0x8C8B4094, 0x0DE2, 0x499F, 0xA28A, 0x4EED5BC73CFF >,
+            bluetoe::fixed_uint8_value< 0x42 >,
+            bluetoe::descriptor< 0x2904, b5_desc, sizeof( b5_desc ) >
+        >
+    >
+>;
+using srv_t = b5_t;
+#endif
+
+#if VF_BCFG == 5
+// ------------------------------------------------------------------------------------------------ B6 (small B2: 10 attributes, fixed handles with gaps)
+std::uint16_t b6_v1 = 0x0102;
+
+using b6_t = bluetoe::server<
+    bluetoe::no_gap_service_for_gatt_servers,
+    bluetoe::max_mtu_size< 65 >,
+    bluetoe::service<
+        bluetoe::attribute_handle< 0x0010 >,
+        bluetoe::service_uuid16< 0x180F >,
+        bluetoe::characteristic<
+            bluetoe::characteristic_uuid16< 0x2A19 >,
+            bluetoe::attribute_handles< 0x0020, 0x0022 >,
+            bluetoe::fixed_uint8_value< 0x42 >,
+            bluetoe::notify
+        >,
+        bluetoe::characteristic<
+            bluetoe::characteristic_uuid< 0xF0426E52, 0x4450, 0x4F3B, 0xB058, 0x5BAB1191D92A >,
+            bluetoe::attribute_handles< 0x0030, 0x0032, 0x0034 >,
+            bluetoe::bind_characteristic_value< decltype( b6_v1 ), &b6_v1 >,
+            bluetoe::indicate
+        >
+    >,
+    bluetoe::service<
+        bluetoe::service_uuid< 0xD9473E00, 0xE7D3, 0x4D90, 0x9366, 0x282AC4F44FEB >,
+        bluetoe::characteristic<
+            bluetoe::characteristic_uuid16< 0x2A1B >,
+            bluetoe::attribute_handle< 0x0040 >,
+            bluetoe::fixed_uint8_value< 0x45 >
+        >
+    >
+>;
+using srv_t = b6_t;
+#endif
+
+#if VF_BCFG == 6
+// ------------------------------------------------------------------------------------------------ B7 (small B3: 9 attributes, secondary service, includes, fixed handles)
+std::uint16_t b7_v1 = 0x0304;
+using b7_sec16_uuid = bluetoe::service_uuid16< 0x18AA >;
+
+using b7_t = bluetoe::server<
+    bluetoe::no_gap_service_for_gatt_servers,
+    bluetoe::max_mtu_size< 65 >,
+    bluetoe::service<
+        bluetoe::is_secondary_service,
+        b7_sec16_uuid,
+        bluetoe::attribute_handle< 0x0010 >,
+        bluetoe::characteristic<
+            bluetoe::characteristic_uuid16< 0x2AAA >,
+            bluetoe::fixed_uint8_value< 0x11 >
+        >
+    >,
+    bluetoe::service<
+        bluetoe::service_uuid16< 0x18BB >,
+        bluetoe::include_service< b7_sec16_uuid >,
+        bluetoe::characteristic<
+            bluetoe::attribute_handle< 0x0020 >,
+            bluetoe::characteristic_uuid16< 0x2ABB >,
+            bluetoe::bind_characteristic_value< decltype( b7_v1 ), &b7_v1 >
+        >
+    >,
+    bluetoe::service<
+        bluetoe::service_uuid< 0x8C8B4094, 0x0DE2, 0x499F, 0xA28A, 0x4EED5BC73CA9 >,
+        bluetoe::attribute_handle< 0x0040 >,
+        bluetoe::include_service< b7_sec16_uuid >
+    >
+>;
+using srv_t = b7_t;
+#endif
+
 // ------------------------------------------------------------------------------------------------ plumbing
 struct conn_t : srv_t::connection_data {
     bluetoe::connection_security_attributes security_attributes() const { return bluetoe::connection_security_attributes(); }
@@ -251,7 +355,13 @@ VF_EXPORT void vf_b_set_bound_values( int, const std::uint8_t* bytes )
     std::memcpy( &b2_v1, bytes, 2 );
 #elif VF_BCFG == 2
     std::memcpy( &b3_v1, bytes, 2 );
-#else
+#elif VF_BCFG == 3
     std::memcpy( &b4_temperature, bytes, 4 );
+#elif VF_BCFG == 4
+    std::memcpy( &b5_v1, bytes, 4 ); std::memcpy( &b5_v2, bytes + 4, 1 );
+#elif VF_BCFG == 5
+    std::memcpy( &b6_v1, bytes, 2 );
+#else
+    std::memcpy( &b7_v1, bytes, 2 );
 #endif
 }
